@@ -4,8 +4,10 @@
    observables are compared: the label's own output (Peek result, infos produced by the real doLookup,
    info handed to the consumer), the cache (key set and the instance served per key), the four
    statistics counters, and the contents of the two stacks the real handleInstanceInfo / doRefresh
-   append to.  Time stamps are not compared (the code reads the wall clock); their effect is compared
-   through evictions and re-queries. *)
+   append to.  The code reads the wall clock in handleInstanceInfo and Peek; the harness moves the stamps
+   those calls wrote onto its virtual time axis right after the call (hook VerifRebaseStamps), so the
+   expiry and last-access stamp of every entry are compared exactly as well, and refresh ticks can sit
+   exactly on the idle / expiry boundaries. *)
 From GS Require Export Base.Bytes Base.CorrLib Model.InstanceCache.
 From stdpp Require Import gmap.
 Local Open Scope Z_scope.
@@ -19,6 +21,7 @@ Inductive out :=
 Record obs := Obs {
   o_out : out;
   o_cache : list (source * option instance);  (* sorted by key by the harness *)
+  o_stamps : list (source * (Z * Z));         (* per key: expires, last access (virtual ns) *)
   o_pos : Z; o_neg : Z; o_rpos : Z; o_rneg : Z;
   o_lookup : list source;                     (* ccp.toLookupIPs in Go order (last = top) *)
   o_return : list info                        (* ccp.toReturnInfo in Go order *)
@@ -50,9 +53,17 @@ Definition cache_ok (st : state) (oc : list (source * option instance)) : bool :
   && bool_decide (NoDup oc.*1)
   && forallb (λ e, option_eqb oinst_eqb (Some e.2) (peek_result (cache st) e.1)) oc.
 
+Definition stamps_ok (st : state) (os : list (source * (Z * Z))) : bool :=
+  (length os =? size (cache st))%nat
+  && forallb (λ e, match cache st !! e.1 with
+                   | Some h => (h_expires h =? e.2.1) && (h_access h =? e.2.2)
+                   | None => false
+                   end) os.
+
 Definition obs_ok (st : state) (o : obs) : bool :=
   out_ok st (o_out o)
   && cache_ok st (o_cache o)
+  && stamps_ok st (o_stamps o)
   && (o_pos o =? gauge_pos st) && (o_neg o =? gauge_neg st)
   && (o_rpos o =? k_rpos (st_core st)) && (o_rneg o =? k_rneg (st_core st))
   && list_eqb str_eqb (o_lookup o) (rev (to_lookup st))
@@ -67,25 +78,27 @@ Definition shape_ok (l : label) (o : out) : bool :=
   end.
 
 (* index of the first step at which model and implementation differ; None = agree everywhere *)
-Fixpoint first_bad (c : config) (st : state) (n : N) (steps : list (label * obs)) : option (N * option state) :=
+Fixpoint first_bad (c : config) (st : state) (n : N) (steps : list (label * obs)) : option (N * bool * state) :=
   match steps with
   | [] => None
   | (l, o) :: r =>
       match step c st l with
-      | None => Some (n, None)      (* the implementation took a step the model does not allow *)
+      | None => Some (n, false, st)  (* the implementation took a step the model does not allow (for a
+                                        Refresh: it queued other sources than the model's expired ones) *)
       | Some st' => if shape_ok l (o_out o) && obs_ok st' o then first_bad c st' (N.succ n) r
-                    else Some (n, Some st')
+                    else Some (n, true, st')
       end
   end.
 
 Definition check_case (k : c12case) : bool :=
   match first_bad (k_cfg k) init 0%N (k_steps k) with None => true | Some _ => false end.
 
-(* for a failing case: the step index and the model's projection after that step *)
+(* for a failing case: the step index and the model's projection after that step (v_enabled = true), or
+   before it if the model cannot take the step at all (v_enabled = false) *)
 Record view := View {
   v_step : N;
   v_enabled : bool;
-  v_cache : list (source * option instance);
+  v_cache : list (source * option instance * (Z * Z));
   v_gauges : Z * Z * Z * Z;
   v_lookup : list source; v_return : list info;
   v_inflight : list info; v_last_delivered : option info;
@@ -95,9 +108,8 @@ Record view := View {
 Definition explain_case (k : c12case) : option view :=
   match first_bad (k_cfg k) init 0%N (k_steps k) with
   | None => None
-  | Some (n, None) => Some (View n false [] (0, 0, 0, 0) [] [] [] None None)
-  | Some (n, Some st) =>
-      Some (View n true (map (λ kh, (kh.1, h_inst kh.2)) (map_to_list (cache st)))
+  | Some (n, en, st) =>
+      Some (View n en (map (λ kh, (kh.1, h_inst kh.2, (h_expires kh.2, h_access kh.2))) (map_to_list (cache st)))
                  (gauge_pos st, gauge_neg st, k_rpos (st_core st), k_rneg (st_core st))
                  (rev (to_lookup st)) (rev (to_return st)) (inflight st) (head (delivered st))
                  (snd <$> head (peeked st)))
